@@ -10,6 +10,6 @@ CONSTANTS
   FnFilter = "all"
   Shapes = {"plain"}
   MaxSess = 0
-  FixProtoCache = FALSE
+  FixProtoCache = TRUE
   Bug = "none"
 CHECK_DEADLOCK FALSE
